@@ -31,6 +31,7 @@ struct GenCtx
     double e_hi{1};
     std::vector<std::string> particles;
     json vol_mat;
+    bool tie_mode{false};  //!< commensurate fixed step limiter / lattice primaries
 };
 
 struct GenOpts
